@@ -12,12 +12,10 @@ using namespace QXmpp::Private;
 // second pass: serializing the parsed object gives the same tree
 #define FIXPOINT(y) { VpWriter w2; (y)->toXml(w2.writer()); QDomElement a = w.root(), b = w2.root(); vp_assert(vp_dom_equal(&a, &b), "C01 re-serializing the parsed object gives the same document"); }
 
-static std::optional<Sasl::ErrorCondition> symCondition()
-{
-    if (!vp_bool()) return {};
-    unsigned c = vp_u32(); vp_assume(c <= unsigned(Sasl::ErrorCondition::TemporaryAuthFailure));
-    return Sasl::ErrorCondition(c);
-}
+// NOTE: no helper returning std::optional/small structs by value: the ABI coerces them into integers and the byte-level copies
+// hide the `engaged` flag from symex's constant propagation (measured: 0.7 s -> 55 s)
+#define N_SASL_CONDITIONS (unsigned(Sasl::ErrorCondition::TemporaryAuthFailure) + 1)
+#define SYM_CONDITION(dst, caseBit, valShift) if (vp_case_bool(caseBit)) { dst = Sasl::ErrorCondition(vp_case_u(valShift, N_SASL_CONDITIONS)); }
 
 extern "C" void h_sasl_auth()
 {
@@ -45,14 +43,14 @@ extern "C" void h_sasl_success()
 }
 extern "C" void h_sasl_failure()
 {
-    Sasl::Failure x; x.condition = symCondition(); x.text = vpSymString(2);
+    Sasl::Failure x; SYM_CONDITION(x.condition, 0, 2) x.text = vpSymStringCase(1, 2);
     ROUNDTRIP(Sasl::Failure, x, y)
     vp_assert(y->condition == x.condition, "C01 Sasl::Failure.condition"); vp_assert(y->text == x.text, "C01 Sasl::Failure.text");
     FIXPOINT(y)
 }
 extern "C" void h_bind2_feature()
 {
-    Bind2Feature x; unsigned n = vp_u32(); vp_assume(n <= 2);
+    Bind2Feature x; unsigned n = vp_case_bool(0) + vp_case_bool(1);
     for (unsigned i = 0; i < 2; i++) if (i < n) x.features.push_back(vpSymString(2));
     ROUNDTRIP(Bind2Feature, x, y)
     vp_assert(y->features.size() == x.features.size(), "C01 Bind2Feature.features size");
@@ -60,8 +58,8 @@ extern "C" void h_bind2_feature()
 }
 extern "C" void h_bind2_request()
 {
-    Bind2Request x; x.tag = vpSymString(2); x.csiInactive = vp_bool(); x.carbonsEnable = vp_bool();
-    if (vp_bool()) { x.smEnable = SmEnable { vp_bool(), vp_u64() }; }
+    Bind2Request x; x.tag = vpSymStringCase(0, 2); x.csiInactive = vp_case_bool(1); x.carbonsEnable = vp_case_bool(2);
+    if (vp_case_bool(3)) { x.smEnable = SmEnable { vp_bool(), vp_u64() }; }
     ROUNDTRIP(Bind2Request, x, y)
     vp_assert(y->tag == x.tag, "C01 Bind2Request.tag"); vp_assert(y->csiInactive == x.csiInactive, "C01 Bind2Request.csiInactive");
     vp_assert(y->carbonsEnable == x.carbonsEnable, "C01 Bind2Request.carbonsEnable");
@@ -71,8 +69,8 @@ extern "C" void h_bind2_request()
 extern "C" void h_bind2_bound()
 {
     Bind2Bound x;
-    if (vp_bool()) { x.smFailed = SmFailed {}; }
-    if (vp_bool()) { SmEnabled e; e.resume = vp_bool(); e.id = vpSymString(1); e.max = vp_u64(); x.smEnabled = e; }
+    if (vp_case_bool(0)) { x.smFailed = SmFailed {}; }
+    if (vp_case_bool(1)) { SmEnabled e; e.resume = vp_bool(); e.id = vpSymString(1); e.max = vp_u64(); x.smEnabled = e; }
     ROUNDTRIP(Bind2Bound, x, y)
     vp_assert(y->smFailed.has_value() == x.smFailed.has_value(), "C01 Bind2Bound.smFailed present");
     vp_assert(y->smEnabled.has_value() == x.smEnabled.has_value(), "C01 Bind2Bound.smEnabled present");
@@ -80,7 +78,7 @@ extern "C" void h_bind2_bound()
 }
 extern "C" void h_fast_feature()
 {
-    FastFeature x; unsigned n = vp_u32(); vp_assume(n <= 2);
+    FastFeature x; unsigned n = vp_case_bool(0) + vp_case_bool(1);
     for (unsigned i = 0; i < 2; i++) if (i < n) x.mechanisms.push_back(vpSymStringNonEmpty(2));
     x.tls0rtt = vp_bool();
     ROUNDTRIP(FastFeature, x, y)
@@ -114,15 +112,14 @@ extern "C" void h_sasl2_response()
 }
 extern "C" void h_sasl2_failure()
 {
-    unsigned c = vp_u32(); vp_assume(c <= unsigned(Sasl::ErrorCondition::TemporaryAuthFailure));
-    Sasl2::Failure x; x.condition = Sasl::ErrorCondition(c); x.text = vpSymString(2);
+    Sasl2::Failure x; x.condition = Sasl::ErrorCondition(vp_case_u(1, N_SASL_CONDITIONS)); x.text = vpSymStringCase(0, 2);
     ROUNDTRIP(Sasl2::Failure, x, y)
     vp_assert(y->condition == x.condition, "C01 Sasl2::Failure.condition"); vp_assert(y->text == x.text, "C01 Sasl2::Failure.text");
 }
 extern "C" void h_sasl2_continue()
 {
-    Sasl2::Continue x; x.additionalData = vpSymBytes(2); x.text = vpSymString(2);
-    unsigned n = vp_u32(); vp_assume(n >= 1 && n <= 2);       // validity predicate of the type: at least one task (XEP-0388)
+    Sasl2::Continue x; x.additionalData = vp_case_bool(0) ? vpSymBytes(2) : QByteArray(); x.text = vpSymStringCase(1, 2);
+    unsigned n = 1 + vp_case_bool(2);       // validity predicate of the type: at least one task (XEP-0388)
     for (unsigned i = 0; i < 2; i++) if (i < n) x.tasks.push_back(vpSymString(2));
     ROUNDTRIP(Sasl2::Continue, x, y)
     vp_assert(y->additionalData == x.additionalData, "C01 Sasl2::Continue.additionalData"); vp_assert(y->text == x.text, "C01 Sasl2::Continue.text");
@@ -131,16 +128,16 @@ extern "C" void h_sasl2_continue()
 }
 extern "C" void h_sasl2_abort()
 {
-    Sasl2::Abort x; x.text = vpSymString(2);
+    Sasl2::Abort x; x.text = vpSymStringCase(0, 2);
     ROUNDTRIP(Sasl2::Abort, x, y)
     vp_assert(y->text == x.text, "C01 Sasl2::Abort.text");
 }
 extern "C" void h_sasl2_success()
 {
-    Sasl2::Success x; if (vp_bool()) x.additionalData = vpSymBytes(2); x.authorizationIdentifier = vpSymString(2);
-    if (vp_bool()) { x.smResumed = SmResumed { vp_u32(), vpSymString(1) }; }
-    if (vp_bool()) { x.smFailed = SmFailed {}; }
-    if (vp_bool()) { x.bound = Bind2Bound {}; }
+    Sasl2::Success x; if (vp_case_bool(0)) x.additionalData = vpSymBytes(2); x.authorizationIdentifier = vpSymStringCase(1, 2);
+    if (vp_case_bool(2)) { x.smResumed = SmResumed { vp_u32(), vpSymString(1) }; }
+    if (vp_case_bool(3)) { x.smFailed = SmFailed {}; }
+    if (vp_case_bool(4)) { x.bound = Bind2Bound {}; }
     ROUNDTRIP(Sasl2::Success, x, y)
     vp_assert(y->additionalData == x.additionalData, "C01 Sasl2::Success.additionalData");
     vp_assert(y->authorizationIdentifier == x.authorizationIdentifier, "C01 Sasl2::Success.authorizationIdentifier");
@@ -152,11 +149,11 @@ extern "C" void h_sasl2_success()
 }
 extern "C" void h_sasl2_authenticate()
 {
-    Sasl2::Authenticate x; x.mechanism = vpSymString(2); x.initialResponse = vpSymBytes(2);
-    if (vp_bool()) { Bind2Request b; b.tag = vpSymString(1); b.csiInactive = vp_bool(); x.bindRequest = b; }
-    if (vp_bool()) { x.smResume = SmResume { vp_u32(), vpSymString(1) }; }
-    if (vp_bool()) { x.tokenRequest = FastTokenRequest { vpSymString(1) }; }
-    if (vp_bool()) { FastRequest f; if (vp_bool()) f.count = vp_u64(); f.invalidate = vp_bool(); x.fast = f; }
+    Sasl2::Authenticate x; x.mechanism = vpSymString(2); x.initialResponse = vp_case_bool(0) ? vpSymBytes(2) : QByteArray();
+    if (vp_case_bool(1)) { Bind2Request b; b.tag = vpSymStringCase(5, 1); b.csiInactive = vp_case_bool(6); x.bindRequest = b; }
+    if (vp_case_bool(2)) { x.smResume = SmResume { vp_u32(), vpSymString(1) }; }
+    if (vp_case_bool(3)) { x.tokenRequest = FastTokenRequest { vpSymString(1) }; }
+    if (vp_case_bool(4)) { FastRequest f; if (vp_bool()) f.count = vp_u64(); f.invalidate = vp_bool(); x.fast = f; }
     ROUNDTRIP(Sasl2::Authenticate, x, y)
     vp_assert(y->mechanism == x.mechanism, "C01 Sasl2::Authenticate.mechanism");
     vp_assert(y->initialResponse == x.initialResponse, "C01 Sasl2::Authenticate.initialResponse");
@@ -169,3 +166,4 @@ extern "C" void h_sasl2_authenticate()
     vp_assert(y->fast.has_value() == x.fast.has_value(), "C01 Sasl2::Authenticate.fast present");
     if (y->fast && x.fast) vp_assert(y->fast->count == x.fast->count && y->fast->invalidate == x.fast->invalidate, "C01 Sasl2::Authenticate.fast fields");
 }
+
